@@ -118,7 +118,7 @@ class Overlay:
 
 class Item:
     """one generated item"""
-    __slots__ = ('entry', 'key', 'kind', 'container', 'impl_header', 'modpath', 'full', 'stub', 'ratio', 'identical', 'log', 'name', 'ghost_counts', 'code_tokens', 'canary_full', 'n_canaries', 'header_tokens', 'variant', 'assumed', 'out_tokens', 'body_index', 'is_mp', 'degraded_full', 'impl_ghost', 'lifted')
+    __slots__ = ('entry', 'key', 'kind', 'container', 'impl_header', 'modpath', 'full', 'stub', 'ratio', 'identical', 'log', 'name', 'ghost_counts', 'code_tokens', 'canary_full', 'n_canaries', 'header_tokens', 'variant', 'assumed', 'out_tokens', 'body_index', 'is_mp', 'degraded_full', 'impl_ghost', 'lifted', 'pre_ext')
 
 
 def _proof_fn_stub(text):
@@ -261,6 +261,7 @@ class Generator:
             it.degraded_full = None
             it.impl_ghost = None
             it.lifted = False
+            it.pre_ext = None
             it.assumed = 'assumed' in e.opts
             if e.kind in ('raw', 'spec'):
                 it.full = text
@@ -303,6 +304,14 @@ class Generator:
                 except Exception as ex:
                     self.problems.append(('unsupported', it.key + '__wf', str(ex)))
         items += extra2
+        extra3 = []
+        for it in items:
+            if it.kind == 'fn' and 'lift' in it.entry.opts and 'ext_trait' in it.entry.opts and it.header_tokens and getattr(it, 'pre_ext', None) and not it.is_mp and not it.assumed:
+                try:
+                    extra3.append(self._derive_lift(it))
+                except Exception as ex:
+                    self.problems.append(('unsupported', it.key + '__lift', str(ex)))
+        items += extra3
         # an `[assumed]` entry is dropped when a real entry for the same KEY exists - decided per generated file
         # (effective_items), because `scope=` may hide the real entry from the unit that declared the assumption
         self.items = items
@@ -393,6 +402,7 @@ class Generator:
             mp = dict(kv.split(':') for kv in e.opts['rename'].split(','))
             both(R.rename_idents, mp, log)
         if 'ext_trait' in e.opts and e.kind == 'fn':
+            it.pre_ext = (list(sig), impl)
             sig, body, impl = self._ext_trait(sig, body, impl, subst(e.opts.get('extcall', ''), self.digit, self.digit2), log,
                                               prefix=(e.opts['ext_trait'] if e.opts['ext_trait'] != '1' else None))
             if impl is None:
@@ -732,6 +742,8 @@ class Generator:
         req, ens, other = [], [], []
         if trait_dual:
             req.append(['bn_wf', '(', 'N', ')'])   # A0 (domain) is not a panic condition: it stays a precondition of the dual
+            if 'M' in header and 'const' in header and header[header.index('M') - 1] == 'const':
+                req.append(['bn_wf', '(', 'M', ')'])   # ... also for the second bnum type of the impl (`Shl<BUint<M>> for BUint<N>`)
         if trait_dual and it.entry.opts.get('mpreq'):
             ens.append(['bn_nopanic', '('] + lex(subst(it.entry.opts['mpreq'].replace('~', ' '), self.digit, self.digit2)) + [')'])
         for kw, toks in clauses:
@@ -993,6 +1005,98 @@ class Generator:
         it.degraded_full = None
         it.header_tokens = h3
         it.lifted = True
+        return m
+
+
+    def _derive_lift(self, it):
+        """`[ext_trait=PREFIX lift]`: besides the twin `PREFIX__m` (proved on the real body against `requires P ensures Q`)
+        the TRAIT-FORM method `<T as Trait>::m` is emitted as a stub with `ensures (P) ==> (Q)`, visible in every unit, so
+        callers that go through the trait (`u32::try_from(x)`) use a contract that follows from the proved twin instead
+        of an `[assumed]` one (same step as `wflift`)."""
+        from .overlay import Entry
+        sig0, impl0 = it.pre_ext
+        sig0 = drop_trailing_commas(list(sig0))
+        header = list(it.header_tokens)
+        tsig, clauses = split_header(header)
+        # result binder of the twin: `-> ( NAME : T )`
+        binder = None
+        if '->' in tsig:
+            k = len(tsig) - 1 - tsig[::-1].index('->')
+            if k + 3 < len(tsig) and tsig[k + 1] == '(' and tsig[k + 3] == ':':
+                binder = tsig[k + 2]
+        if binder is None or '->' not in sig0:
+            raise ValueError('lift needs a named result')
+        k0 = len(sig0) - 1 - sig0[::-1].index('->')
+        h3 = sig0[:k0 + 1] + ['(', binder, ':'] + sig0[k0 + 1:] + [')']
+
+        def parts_of(toks):
+            parts, cur, d = [], [], 0
+            for t in toks:
+                if t in '([{':
+                    d += 1
+                elif t in ')]}':
+                    d -= 1
+                if t == ',' and d == 0:
+                    if cur:
+                        parts.append(cur)
+                    cur = []
+                else:
+                    cur.append(t)
+            if cur:
+                parts.append(cur)
+            return parts
+        req, ens = [], []
+        for kw, toks in clauses:
+            if kw == 'requires':
+                req += parts_of(toks)
+            elif kw == 'ensures':
+                ens += parts_of(toks)
+        if not ens:
+            raise ValueError('lift needs an ensures clause')
+        if any('self__' in p_ for p_ in req + ens):
+            raise ValueError('lift: the twin renamed the receiver')
+        pre = []
+        for i_, p_ in enumerate(req):
+            if i_:
+                pre.append('&&')
+            pre += ['('] + p_ + [')']
+        h3.append('ensures')
+        for e_ in ens:
+            h3 += (['('] + pre + [')', '==>'] if pre else []) + ['('] + e_ + [')', ',']
+        e2 = Entry()
+        e2.kind = 'fn'
+        e2.key = it.entry.key
+        e2.opts = {k: v for k, v in it.entry.opts.items() if k not in ('ext_trait', 'extcall', 'scope', 'lift', 'mp')}
+        e2.text = ''
+        e2.unit = it.entry.unit
+        e2.line = it.entry.line
+        m = Item()
+        m.entry = e2
+        m.kind = 'fn'
+        m.key = it.key + '__trait'
+        m.name = m.key
+        m.log = {'LIFT': 1}
+        m.ratio = it.ratio
+        m.identical = it.identical
+        m.ghost_counts = {}
+        m.code_tokens = 0
+        m.impl_header = impl0
+        m.modpath = ()
+        m.container = None
+        m.header_tokens = h3
+        m.out_tokens = None
+        m.body_index = None
+        m.variant = None
+        m.assumed = False
+        m.lifted = True
+        m.pre_ext = None
+        m.is_mp = False
+        m.impl_ghost = None
+        m.degraded_full = None
+        m.full = '#[verifier::external_body]\n' + join(h3) + '{ unimplemented!() }\n'
+        m.canary_full = m.full
+        m.stub = m.full
+        m.n_canaries = 0
         return m
 
     def render(self, unit, canary=False, degrade=()):
